@@ -284,6 +284,8 @@ func loadCase(e *loadEnv, ls loadSpec, kind string) (lib.Case, error) {
 		oracle = "an unknown or repeated source reference did not fail the load (a task is silently missing or a pair has two runners)"
 	case ek == "ok" && okind == "err":
 		oracle = "a valid configuration failed to load: " + msg
+	case ek == "ok" && wrongClient(ls, tasks) != "":
+		oracle = wrongClient(ls, tasks)
 	case ek == "ok" && fmt.Sprint(et) != fmt.Sprint(tasks):
 		oracle = fmt.Sprintf("task list differs from the configured one: got %v want %v", tasks, et)
 	}
@@ -299,8 +301,21 @@ func loadCase(e *loadEnv, ls loadSpec, kind string) (lib.Case, error) {
 var srcPool = []string{"a", "b", "c", "d"}
 var igPool = []string{"i1", "i2", "i3", "i4", "i5"}
 
-func genLoad(r *lib.RNG, malformed bool) loadSpec {
-	var ls loadSpec
+func genLoad(r *lib.RNG, malformed bool) (ls loadSpec) {
+	// half of the mixes: several sources on ONE chain (two providers for one network, a file
+	// source plus a dashboard-added one): chain ids from a pool of two
+	shared := r.Chance(1, 2)
+	defer func() {
+		if !shared {
+			return
+		}
+		for i := range ls.FileSrcs {
+			ls.FileSrcs[i].Chain = uint64(1 + (i+len(ls.DBSrcs))%2)
+		}
+		for i := range ls.DBSrcs {
+			ls.DBSrcs[i].Chain = uint64(1 + i%2)
+		}
+	}()
 	for i, n := range srcPool {
 		if r.Chance(3, 5) {
 			ls.FileSrcs = append(ls.FileSrcs, srcSpec{Name: n, Chain: uint64(100 + i), PollNS: int64(r.Intn(4)) * 1000000,
@@ -363,6 +378,19 @@ func genLoad(r *lib.RNG, malformed bool) loadSpec {
 			ls.DBIgs = append(ls.DBIgs, mkIg(n))
 		}
 	}
+	if shared && len(known) >= 2 {
+		// one enabled integration that references EVERY defined source: if the clients were
+		// built per chain instead of per source, at least one of its tasks holds the wrong one
+		all := igSpec{Name: "iall", Enabled: true}
+		for _, n := range known {
+			all.Refs = append(all.Refs, refSpec{Name: n, Start: uint64(r.Intn(50))})
+		}
+		if r.Chance(1, 2) {
+			ls.FileIgs = append(ls.FileIgs, all)
+		} else {
+			ls.DBIgs = append(ls.DBIgs, all)
+		}
+	}
 	if malformed && r.Chance(1, 3) && len(ls.DBIgs) > 0 {
 		// two database rows with one name: the later row wins
 		ls.DBIgs = append(ls.DBIgs, mkIg(ls.DBIgs[r.Intn(len(ls.DBIgs))].Name))
@@ -396,7 +424,44 @@ func loadCorpus() []loadSpec {
 		{FileSrcs: []srcSpec{fa}, FileIgs: []igSpec{{Name: "i1", Enabled: true, Refs: []refSpec{{Name: "a"}, {Name: "a", Start: 100}}}}},
 		// an enabled integration without sources: no task, no error
 		{FileSrcs: []srcSpec{fa}, FileIgs: []igSpec{{Name: "i1", Enabled: true}}},
+		// several sources on one chain id, every one referenced: each task must hold the client
+		// built for ITS source (URL), file+file, file+database, database+database; control: distinct ids
+		{FileSrcs: []srcSpec{{Name: "a", Chain: 1, PollNS: 1000000, URL: "http://file-a"}, {Name: "b", Chain: 1, PollNS: 2000000, URL: "http://file-b"}, {Name: "c", Chain: 1, PollNS: 3000000, URL: "http://file-c"}},
+			FileIgs: []igSpec{{Name: "i1", Enabled: true, Refs: []refSpec{{Name: "a"}, {Name: "b"}, {Name: "c"}}}}},
+		{FileSrcs: []srcSpec{{Name: "a", Chain: 1, PollNS: 1000000, URL: "http://file-a"}}, DBSrcs: []srcSpec{{Name: "b", Chain: 1, FromDB: true, URL: "http://db-b"}},
+			FileIgs: []igSpec{{Name: "i1", Enabled: true, Refs: []refSpec{{Name: "a"}, {Name: "b"}}}}, DBIgs: []igSpec{{Name: "i2", Enabled: true, Refs: []refSpec{{Name: "b"}, {Name: "a"}}}}},
+		{DBSrcs: []srcSpec{{Name: "a", Chain: 5, FromDB: true, URL: "http://db-a"}, {Name: "b", Chain: 5, FromDB: true, URL: "http://db-b"}},
+			DBIgs: []igSpec{{Name: "i1", Enabled: true, Refs: []refSpec{{Name: "a"}}}, {Name: "i2", Enabled: true, Refs: []refSpec{{Name: "b"}}}}},
+		{FileSrcs: []srcSpec{{Name: "a", Chain: 1, URL: "http://file-a"}, {Name: "b", Chain: 2, URL: "http://file-b"}},
+			FileIgs: []igSpec{{Name: "i1", Enabled: true, Refs: []refSpec{{Name: "a"}, {Name: "b"}}}}},
 		// database only
 		{DBSrcs: []srcSpec{da, db}, DBIgs: []igSpec{{Name: "i1", Enabled: true, Refs: []refSpec{ra, rb}}, {Name: "i2", Enabled: true, Refs: []refSpec{rb}}}},
 	}
+}
+
+// wrongClient: every loaded task must hold the client that was built for ITS
+// source -- the URL its client hands out is the URL of the source definition
+// its src_name resolves to (file entry over database row), whatever other
+// sources share that chain id.
+func wrongClient(ls loadSpec, tasks []taskObs) string {
+	srcs := map[string]srcSpec{}
+	for _, s := range ls.DBSrcs {
+		srcs[s.Name] = s
+	}
+	for _, s := range ls.FileSrcs {
+		srcs[s.Name] = s
+	}
+	for _, t := range tasks {
+		if s, ok := srcs[t.Src]; ok && t.URL != s.URL {
+			other := ""
+			for _, o := range srcs {
+				if o.URL == t.URL {
+					other = fmt.Sprintf(" (the client of source %q, chain id %d)", o.Name, o.Chain)
+				}
+			}
+			return fmt.Sprintf("task (%s, %s) records under source %q (chain id %d, url %s) but talks to %s%s",
+				t.Src, t.Ig, s.Name, s.Chain, s.URL, t.URL, other)
+		}
+	}
+	return ""
 }
